@@ -293,7 +293,10 @@ def c01(trace, V):
             ws = w("SEAWEED_WASTE_RETAIL")
             want = wet[:-1] * (1 + g[1:]) - h[1:] / (1 - ws) - f[1:] - b[1:] - (area[1:] - area[:-1]) * dmin * hl
             res = np.abs(wet[1:] - want)
-            scale = 1 + np.abs(wet[:-1] * (1 + g[1:])) + np.abs(h[1:]) + np.abs(f[1:]) + np.abs(b[1:])
+            # every term of the row counts (values come back from CBC with 8 significant digits): the area term
+            # can dominate the row when the used area changes a lot in one month
+            scale = (1 + np.abs(wet[:-1] * (1 + g[1:])) + np.abs(h[1:]) + np.abs(f[1:]) + np.abs(b[1:])
+                     + (np.abs(area[1:]) + np.abs(area[:-1])) * dmin * hl)
             bad = res > 1e-5 * scale
             V.resid("seaweed_ledger", float(np.max(res / scale)))
             V.check("seaweed_ledger", not bad.any(), dict(idn, sub="balance"),
